@@ -26,7 +26,7 @@ ASSUMPTIONS = [
     'documented order of the coefficients: selected pairs unique and sorted by (parameter, dimension), covariate-minor',
     'distributional agreement of sampling is decided under C06; here only shapes and point-mass models']
 REQUIRED = ['kind:gauss', 'kind:lognorm', 'kind:trunc', 'kind:pooled', 'kind:hetero', 'sel:default', 'sel:explicit',
-            'sel:unsorted', 'sel:dup', 'zero_cov', 'zero_beta', 'oor', 'direct']
+            'sel:unsorted', 'sel:dup', 'zero_cov', 'zero_beta', 'oor', 'direct', 'int_theta']
 
 
 def _theta_for(draw, spec, n_ids, cov):
@@ -46,13 +46,34 @@ def _spec(draw):
     pop = dict(kind='cov', base=base, n_cov=n_cov, sel=sel)
     cov = popgen.draw_cov_matrix(draw, n_ids, n_cov, units=True)
     theta = popgen.draw_theta(draw, pop, n_ids, cov)
+    int_theta = False
+    if gen.chance(draw, 0.1):
+        # an integer-valued parameter vector (locations, scales >= 2 and coefficients are whole numbers; the covariates
+        # are not): users type such vectors as Python ints
+        nb0 = ref.pop_n_par(base, n_ids)
+        npd0 = ref.pop_per_dim(base, n_ids)
+        nd0 = base['n_dim']
+        th = []
+        for k in range(nb0):
+            p = k // nd0
+            scale = base['kind'] in ('gauss', 'lognorm', 'trunc') and p == 1
+            th.append(draw(st.integers(2, 6)) if (scale or base['kind'] in ('pooled', 'hetero')) else draw(st.integers(1, 5)))
+        for (p, d) in ref.cov_selection(pop, n_ids):
+            for c in range(n_cov):
+                scale = base['kind'] in ('gauss', 'lognorm', 'trunc') and p == 1
+                th.append(0 if scale else draw(st.sampled_from([-1, 1, 2])))
+        theta, int_theta = th, True
+        if base['kind'] in ('pooled', 'hetero', 'trunc'):
+            # keep the shifted values positive: covariates in [-0.45, 0.45] per coefficient
+            cov = [[gen.r6(0.45 * v / (2.0 * n_cov)) for v in row] for row in cov] if max(
+                abs(v) for row in cov for v in row) <= 2.0 else cov
     z = draw(gen.mat(gen.real(-3, 3), n_ids, base['n_dim']))
     U = draw(gen.mat(gen.real(-3, 3), n_ids, base['n_dim'])) if gen.chance(draw, 0.5) else None
     oor = None
     if gen.chance(draw, 0.06):
         oor = draw(st.sampled_from([[npd, 0], [0, base['n_dim']], [-1, 0], [0, -1]]))
     direct = draw(st.sampled_from([None, None, 'list', 'array']))
-    return dict(pop=pop, n_ids=n_ids, theta=theta, z=z, cov=cov, U=U, oor=oor, direct=direct)
+    return dict(pop=pop, n_ids=n_ids, theta=theta, z=z, cov=cov, U=U, oor=oor, direct=direct, int_theta=int_theta)
 
 
 def strategy(tier):
@@ -222,10 +243,40 @@ def check(case):
         case.close(got, np.array(rows), rtol=1e-12, what='individual parameters vs underlying model per individual')
         case.close(got, np.real(ref.pop_indiv(pop, n_ids, theta, x, cov)), rtol=1e-12,
                    what='individual parameters vs documented transform')
+        if not any(special):
+            # the documented flattened form (n_ids * n_dim,) of the fluctuations, and the eta that is handed back
+            flat = np.asarray(m.compute_individual_parameters(theta.copy(), x.flatten().copy(), cov.copy()), dtype=float)
+            case.close(flat, got, rtol=0, atol=0, what='individual parameters for eta given flattened (n_ids * n_dim,)')
+            eta_m = np.asarray(m.compute_individual_parameters(theta.copy(), x.copy(), cov.copy(), return_eta=True),
+                               dtype=float)
+            eta_f = np.asarray(m.compute_individual_parameters(theta.copy(), x.flatten().copy(), cov.copy(),
+                                                               return_eta=True), dtype=float)
+            case.close(eta_f.reshape(eta_m.shape), eta_m, rtol=0, atol=0, what='return_eta=True for eta given flattened')
         if any(special):
             x = got.copy()
     if 'indiv' not in case.checked:
         return
+
+    # the dtype / container of the parameter vector does not matter (lists, integer-valued vectors as int arrays)
+    with case.clause('argument_forms'):
+        forms = [('list', [float(v) for v in theta])]
+        if s.get('int_theta'):
+            forms.append(('int array', np.array([int(v) for v in s['theta']], dtype=int)))
+            forms.append(('int list', [int(v) for v in s['theta']]))
+            case.labels.append('int_theta')
+        for label, th in forms:
+            a = np.asarray(m.compute_individual_parameters(th, x.copy(), cov.copy()), dtype=float)
+            case.close(a, got, rtol=1e-12, what='individual parameters with the parameters given as %s' % label)
+            if not any(special):
+                la = m.compute_log_likelihood(th, x.copy(), cov.copy())
+                lb = m.compute_log_likelihood(theta.copy(), x.copy(), cov.copy())
+                case.close(la, lb, rtol=1e-12, what='log-likelihood with the parameters given as %s' % label)
+            if label != 'list' and not any(special):
+                sa = m.compute_sensitivities(th, x.copy(), cov.copy())
+                sb = m.compute_sensitivities(theta.copy(), x.copy(), cov.copy())
+                for u, v, nm in zip(sa, sb, ('score', 'dpsi', 'dtheta')):
+                    case.close(np.asarray(u, dtype=float), np.asarray(v, dtype=float), rtol=1e-12,
+                               what='%s of compute_sensitivities with the parameters given as %s' % (nm, label))
 
     def und_ll(i, xi):
         """Underlying model for individual i alone with parameters vartheta_i."""
